@@ -85,6 +85,30 @@ Definition slice_indices (len start : Z) (stop : option Z) (step : Z) : list Z :
   else if step =? -1 then map (fun i => a - i) (zrange 0 (a - b))
   else [].
 
+(* ---------- order of the slices of one directory ---------- *)
+
+(* convert_slices_in_directory: sorted(d.iterdir()) -- the stack order is the
+   lexicographic order of the file names, compared element by element (bytes
+   of the name; for str names Python compares code points, which is the same
+   order on UTF-8 bytes), a proper prefix coming first. *)
+Fixpoint lex_leb (a b : list N) : bool :=
+  match a, b with
+  | [], _ => true
+  | _ :: _, [] => false
+  | x :: a', y :: b' => if (x <? y)%N then true else if (y <? x)%N then false else lex_leb a' b'
+  end.
+
+Fixpoint lex_insert (x : list N) (l : list (list N)) : list (list N) :=
+  match l with
+  | [] => [x]
+  | y :: r => if lex_leb x y then x :: l else y :: lex_insert x r
+  end.
+
+Definition lex_sort (l : list (list N)) : list (list N) := fold_right lex_insert [] l.
+
+(* slice k of the stack of a directory is the k-th name of this list *)
+Definition slice_order (names : list (list N)) : list (list N) := lex_sort names.
+
 (* ---------- sources and arrays ---------- *)
 
 Record src := { s_dir : Z; s_file : Z; s_row : Z; s_col : Z; s_ch : Z }.
